@@ -192,3 +192,22 @@ theorem sum_copies (m n : Nat) (g : Fin n → K) (hn : 0 < n) :
       simp [Nat.mul_add_mod, Nat.mod_eq_of_lt i.isLt]
     rw [h1, h2, ih]
     push_cast; ring
+
+/-! ### the stiffness-detection quotient is mirror-symmetric -/
+theorem sq_neg_sub (a b : K) : (-a - -b) * (-a - -b) = (a - b) * (a - b) := by ring
+theorem neg_h_comb (h a b c d e k1 k2 k3 k4 k5 : K) :
+    -h * (a * -k1 + b * -k2 + c * -k3 + d * -k4 + e * -k5) = h * (a * k1 + b * k2 + c * k3 + d * k4 + e * k5) := by ring
+
+theorem dop853_stiff_reflect {n : Nat} (k4 k3 k5 y1 : Vector K n) (h hl : K) :
+    (Gen.Dop853.stiff (k4 := vneg k4) (k3 := vneg k3) (k5 := k5) (y1 := y1) (h := -h) (hlamb := hl)).hlamb
+      = (Gen.Dop853.stiff (k4 := k4) (k3 := k3) (k5 := k5) (y1 := y1) (h := h) (hlamb := hl)).hlamb := by
+  simp only [Gen.Dop853.stiff, Gen.Dop853.stiff_loop1, vneg, Vector.getElem_ofFn, Fin.getElem_fin, sq_neg_sub, num_abs, abs_neg]
+  rfl
+
+theorem dopri5_stiff_reflect {n : Nat} (k2 k6 y k1 k3 k4 k5 y1 : Vector K n) (h hl : K) :
+    (Gen.Dopri5.stiff (k2 := vneg k2) (k6 := vneg k6) (y := y) (h := -h) (k1 := vneg k1) (k3 := vneg k3) (k4 := vneg k4)
+        (k5 := vneg k5) (y1 := y1) (hlamb := hl)).hlamb
+      = (Gen.Dopri5.stiff (k2 := k2) (k6 := k6) (y := y) (h := h) (k1 := k1) (k3 := k3) (k4 := k4) (k5 := k5) (y1 := y1)
+        (hlamb := hl)).hlamb := by
+  simp only [Gen.Dopri5.stiff, Gen.Dopri5.stiff_loop1, vneg, Vector.getElem_ofFn, Fin.getElem_fin, sq_neg_sub, neg_h_comb, num_abs, abs_neg]
+  rfl
